@@ -324,7 +324,7 @@ func runGet(c Case) (o hx.Outcome) {
 	}
 
 	bad, kind, detail := applyCorr(good, lf.unc, c.Corr, data, other, c.Backend.Enc)
-	if tooBig(bad, lf, c.Backend) {
+	if tooBig(bad, lf) {
 		o.Class("skipped:header-declares>16MiB")
 		o.Desc = map[string]any{"mode": mGet, "skipped": "poisoned object announces a content size above 16 MiB", "corruption": kind, "what": detail}
 		return o
@@ -466,12 +466,11 @@ func runGet(c Case) (o hx.Outcome) {
 
 // tooBig: the poisoned object would be handed to the zstd decoder with a header announcing
 // more than maxDeclared bytes.
-func tooBig(bad []byte, lf *leaf, b Backend) bool {
+func tooBig(bad []byte, lf *leaf) bool {
 	if declaredSize(bad) <= maxDeclared {
 		return false
 	}
-	// an uncompressed slot is decoded only when the HTTP handler or the protocol server
-	// re-compress it for the wire - never; the bytes are data there
+	// in an uncompressed slot the bytes are data, nobody decodes them
 	return !lf.unc
 }
 
@@ -533,9 +532,9 @@ func TestRegress(t *testing.T) { hx.Regress(t, spec) }
 func TestKnown(t *testing.T)   { hx.Known(t, spec) }
 func TestReplay(t *testing.T)  { hx.Replay(t, spec); closeShared() }
 
-func TestSelf(t *testing.T)    { selfTest(t) }
-func TestEnum(t *testing.T)    { enumTest(t) }
-func TestProp(t *testing.T)    { hx.Prop(t, spec) }
+func TestSelf(t *testing.T) { selfTest(t) }
+func TestEnum(t *testing.T) { enumTest(t) }
+func TestProp(t *testing.T) { hx.Prop(t, spec) }
 
 var (
 	errHang  = errors.New("consumer did not return")
